@@ -282,6 +282,6 @@ static void mw_observer (void) {
 	left = mc_quiesce ();
 	mc_assert (left == 0, "threads 0x%x still blocked after every condition was made true by a section ended with nsync_mu_unlock", left);
 }
-MC_ORACLE static void mw_final (void) { h_outcome_results (); mc_outcome (" evals=%d", cond_evals > 0); }
+MC_ORACLE static void mw_final (void) { h_mu_idle (&mu); h_outcome_results (); mc_outcome (" evals=%d", cond_evals > 0); }
 extern const struct mc_family fam_muwait;
 const struct mc_family fam_muwait = { "muwait", mw_setup, mw_init, mw_thread, mw_observer, mw_final };
